@@ -31,6 +31,7 @@ type chanHarness struct {
 var chanEntriesFor = map[string][]string{
 	"C19": {"fmapint", "fmapstr", "fmapchan", "joinrr", "joinbr", "joinsr", "joinsb", "joinv2", "joinv3", "joinv4", "pipeline", "dupb", "dupr"},
 	"C20": {"do2", "do3", "do4"},
+	"C16": {"compose3"}, // concurrent callers of one composed function (second part of the C16 check)
 }
 
 // buildChanHarness: copy /repo, build goderive from it, run it on every
@@ -48,7 +49,7 @@ func buildChanHarness(prop string) *chanHarness {
 	gomod := "module harness\n\ngo 1.24\n\nrequire verif v0.0.0\n\nreplace verif => " + verifRoot + "\n"
 	os.WriteFile(filepath.Join(hd, "go.mod"), []byte(gomod), 0o644)
 
-	all := append(append([]string{}, chanEntriesFor["C19"]...), chanEntriesFor["C20"]...)
+	all := append(append(append([]string{}, chanEntriesFor["C19"]...), chanEntriesFor["C20"]...), chanEntriesFor["C16"]...)
 	h.entries = all
 	cat := filepath.Join(verifRoot, "harness/chan/_catalog")
 	var wg sync.WaitGroup
@@ -149,8 +150,23 @@ type workerStats struct {
 	To          int            `json:"to"`
 }
 
-func chanCheck(o checkOpts) int {
+func chanCheck(o checkOpts) int { return chanCheckSub(o, "") }
+
+// chanCheckSub with sub != "" is the chansim part of a check whose first part
+// has already written the property's evidence file: its coverage goes under
+// the key sub of that evidence instead of replacing it.
+func chanCheckSub(o checkOpts, sub string) int {
 	ev := newEvidence(o.id, o.tier, o.seed, "exploration")
+	if sub != "" {
+		if b, err := os.ReadFile(filepath.Join(evidenceDir(), o.id+".json")); err == nil {
+			var prev Evidence
+			if json.Unmarshal(b, &prev) == nil && prev.Coverage != nil {
+				prev.start = time.Now().Add(-time.Duration(prev.WallS * float64(time.Second)))
+				ev = &prev
+				curEvidence = ev
+			}
+		}
+	}
 	h := buildChanHarness(o.id)
 	defer cleanup()
 
@@ -159,6 +175,10 @@ func chanCheck(o checkOpts) int {
 	if o.tier == "thorough" {
 		runsTotal = 400_000_000
 		maxWall = 20 * time.Minute
+	}
+	if sub != "" {
+		// a side condition of the property, not its core: a smaller share of the budget
+		runsTotal, maxWall = runsTotal/10, maxWall/3
 	}
 	if v := os.Getenv("VERIF_RUNS"); v != "" {
 		fmt.Sscan(v, &runsTotal)
@@ -256,6 +276,11 @@ func chanCheck(o checkOpts) int {
 		untracked = append(untracked, r.Untracked...)
 	}
 	cov := ev.Coverage
+	if sub != "" {
+		cov = map[string]any{}
+		ev.Coverage[sub] = cov
+		cov["engine"] = "chansim"
+	}
 	cov["evaluations"] = agg.Runs
 	cov["distinct_nontrivial"] = len(union)
 	cov["distinct_capped"] = capped
@@ -280,10 +305,18 @@ func chanCheck(o checkOpts) int {
 	cov["build_s"] = h.buildS
 	cov["sim_wall_s"] = simWall
 	cov["workers"] = jobs
-	ev.Assumptions = []string{
+	chanAssumptions := []string{
 		"the translator (internal/xlate) preserves the meaning of the generated code; validated by its snippet corpus (selftest xlate) and by compiling the result",
 		"sampling, not enumeration: a clean batch is evidence, not proof",
 		"the Go memory model edges implemented in chansim (go, channel send/receive/close, WaitGroup, Mutex) are the ones the race clause is judged by",
+	}
+	if sub != "" {
+		for i := range chanAssumptions {
+			chanAssumptions[i] = sub + ": " + chanAssumptions[i]
+		}
+		ev.Assumptions = append(ev.Assumptions, chanAssumptions...)
+	} else {
+		ev.Assumptions = chanAssumptions
 	}
 
 	// thorough tier: real-runtime corroboration (not seeded, not deciding): the
